@@ -313,7 +313,7 @@ pub fn run(a: &Args, acc: &mut Acc) {
                 } else {
                     denom(&mut rng)
                 };
-                let c = Case { allow: allow.clone(), cand: cand.clone(), exact_in, coin: (d, rng.below128(1u128 << 100)), limit: rng.u128() >> rng.below(120), by_trader: rng.chance(5, 6) };
+                let c = Case { allow: allow.clone(), cand: cand.clone(), exact_in, coin: (d, rng.below128(1u128 << 100)), limit: if rng.chance(1, 6) { *rng.pick(&[0u128, 1, 2, u128::MAX]) } else { rng.u128() >> rng.below(120) }, by_trader: rng.chance(5, 6) };
                 let v = check_swap(&c);
                 let listed = allow.iter().any(|a| a == &cand);
                 acc.seen("C13", &format!("swap|{family}|{exact_in}|{listed}|{endpoint_ok}|{}|{}", c.by_trader, cand.len().min(4)));
